@@ -7,8 +7,9 @@ database state / operation / operation sequence, restated verbatim from `Dnp3.Pr
 (namespace `Dnp3.Props.Db`), which also carries the satisfiability `example`s:
 
 * events are kept oldest first with unique increasing ids (`ordered_*`), counters are exact
-  (`total_exact_invariant`, `counters_exact_partial`; the full statement is FALSE on the unchanged
-  tree — D3, `counters_exact_counterexample`);
+  (`total_exact_invariant`, `counters_exact` for every operation sequence, `counters_exact_preserved`
+  per operation; the former D3 witness: `counters_exact_former_witness`), the checked counter
+  decrements of an overflow cannot underflow (`discard_decrements_no_underflow`);
 * an event leaves the buffer only by `clearWritten` (exactly the `Written` records, oldest first,
   each id once: `clear_releases_*`) or by an overflow that is reported and discards the oldest record
   of the type (`kept`, `overflow_reported_discards_oldest`); `reset` (timeout, new request) releases
@@ -41,29 +42,43 @@ theorem total_exact_invariant (evMax : Nat) (sel : Option Nat) (ops : List DbOp)
     TotalExact (run (Db.new evMax sel) ops) :=
   @Dnp3.Props.Db.total_exact_invariant evMax sel ops
 
-/-- `counters_exact`, partial: `total` AND `written` counters equal the per-class / per-type
-    counts of records / of `Written` records after every history in which no update overflows a
-    `Written` record out of the buffer (`SafeRun`: at each `update` of type `t`, if the type is at
-    capacity then its oldest record is not `Written`) -/
-theorem counters_exact_partial (evMax : Nat) (sel : Option Nat) (ops : List DbOp)
-    (hs : SafeRun (Db.new evMax sel) ops) : CountersExact (run (Db.new evMax sel) ops) :=
-  @Dnp3.Props.Db.counters_exact_partial evMax sel ops hs
+/-- `counters_exact`: `total` AND `written` counters equal the per-class / per-type counts of
+    records / of `Written` records: an invariant of every operation sequence from a fresh database,
+    the overflow of a `Written` record out of the buffer included (false before the repair of D3:
+    `insert` left `written` too high) -/
+theorem counters_exact (evMax : Nat) (sel : Option Nat) (ops : List DbOp) :
+    CountersExact (run (Db.new evMax sel) ops) :=
+  @Dnp3.Props.Db.counters_exact evMax sel ops
 
-/-- one step: every operation preserves `WrittenExact`, except an update that discards a
-    `Written` record (`StepSafe`) -/
-theorem written_exact_preserved (db : Db) (op : DbOp) (h : WrittenExact db) (hs : StepSafe db op) :
-    WrittenExact (step db op) :=
-  @Dnp3.Props.Db.written_exact_preserved db op h hs
+/-- … and it is preserved by every single operation from any state that has it -/
+theorem counters_exact_preserved (db : Db) (op : DbOp) (h : CountersExact db) : CountersExact (step db op) :=
+  @Dnp3.Props.Db.counters_exact_preserved db op h
 
-/-- D3: after the witness `written.class1 = 1 > total.class1 = 0`; the counters are not exact and
-    the checked subtraction of `unwritten_classes` panics (`none`) -/
-theorem counters_exact_counterexample :
-    ¬ CountersExact (run (Db.new 1 none) d3Witness) ∧
-    (run (Db.new 1 none) d3Witness).unwrittenClasses = none ∧
-    (run (Db.new 1 none) d3Witness).written.c1 = 1 ∧ (run (Db.new 1 none) d3Witness).total.c1 = 0 :=
-  @Dnp3.Props.Db.counters_exact_counterexample 
+/-- one step: every operation preserves `WrittenExact` (no side condition: an update that discards
+    a `Written` record takes it out of `written` too) -/
+theorem written_exact_preserved (db : Db) (op : DbOp) (h : WrittenExact db) : WrittenExact (step db op) :=
+  @Dnp3.Props.Db.written_exact_preserved db op h
 
-/-- D3 is healed by the next `clear` or `reset`: both re-establish `WrittenExact` from ANY state -/
+/-- the former D3 witness history now leaves exact counters: the discarded `Written` class-1 record
+    is gone from `written` as well (`written.class1 = total.class1 = 0`; before the repair
+    `written.class1 = 1`), `unwritten_classes` does not panic and reports class 2 only -/
+theorem counters_exact_former_witness :
+    CountersExact (run (Db.new 1 none) d3Witness) ∧
+    (run (Db.new 1 none) d3Witness).unwrittenClasses = some (false, true, false) ∧
+    (run (Db.new 1 none) d3Witness).written.c1 = 0 ∧ (run (Db.new 1 none) d3Witness).total.c1 = 0 :=
+  @Dnp3.Props.Db.counters_exact_former_witness
+
+/-- the checked decrements of `insert` (`Count::decrement`, `-= 1`) never underflow: with exact
+    counters the record an overflow of type `t` discards is counted in `total` (type, then class) and,
+    when it is `Written`, in `written` (type, then class) -/
+theorem discard_decrements_no_underflow (db : Db) (t : PtType) (d : EvRec) (rest : List EvRec)
+    (h : CountersExact db) (hrem : removeFirstTy t db.events = some (d, rest)) :
+    1 ≤ db.total.ty t ∧ (d.cls = 1 ∨ d.cls = 2 ∨ d.cls = 3 → 1 ≤ (db.total.decTy t).cls d.cls) ∧
+    (d.st = .written →
+      1 ≤ db.written.ty t ∧ (d.cls = 1 ∨ d.cls = 2 ∨ d.cls = 3 → 1 ≤ (db.written.decTy t).cls d.cls)) :=
+  @Dnp3.Props.Db.discard_decrements_no_underflow db t d rest h hrem
+
+/-- `clear` and `reset` establish `WrittenExact` from ANY state -/
 theorem written_exact_restored (db : Db) : WrittenExact db.clearWritten.1 ∧ WrittenExact db.reset :=
   @Dnp3.Props.Db.written_exact_restored db
 
